@@ -6,12 +6,12 @@ namespace Infretis.EngineLoops
 open Infretis.Engine
 
 /-- `add_to_path` on a path with room: the value is appended; stop iff outside or the limit is reached;
-    success iff outside AND the limit is not reached (the `length == maxlen` block overrides a crossing). -/
+    success iff outside (since repair f955162 the `length == maxlen` block no longer overrides a crossing). -/
 theorem addToPath_fits (ops : List Int) (ml : Option Nat) (x l r : Int)
     (hfit : ∀ m, ml = some m → ops.length < m) :
     ∃ res, addToPath ops ml x l r = some (ops ++ [x], res) ∧ res.added = true ∧
       (res.stop = true ↔ (x < l ∨ x > r ∨ ml = some (ops.length + 1))) ∧
-      (res.success = true ↔ ((x < l ∨ x > r) ∧ ml ≠ some (ops.length + 1))) := by
+      (res.success = true ↔ (x < l ∨ x > r)) := by
   have hpa : pathAppend ops ml x = (ops ++ [x], true) := by
     unfold pathAppend
     cases ml with
@@ -25,7 +25,7 @@ theorem addToPath_fits (ops : List Int) (ml : Option Nat) (x l r : Int)
 
 
 /-- **`feed` consumes exactly the prefix up to and including the FIRST value that is outside `[l, r]` or
-    that brings the length to `maxlen`; success iff that value is outside and the length is not `maxlen`.** -/
+    that brings the length to `maxlen`; success iff that value is outside.** -/
 theorem feed_spec (l r : Int) (ml : Option Nat) :
     ∀ (stream ops0 : List Int) (k0 : Nat) (ops : List Int) (succ : Bool) (k : Nat),
     (∀ m, ml = some m → ops0.length < m) →
@@ -35,7 +35,7 @@ theorem feed_spec (l r : Int) (ml : Option Nat) :
       ((n = stream.length ∧ succ = false ∧
           ∀ i x, stream[i]? = some x → l ≤ x ∧ x ≤ r ∧ ml ≠ some (ops0.length + i + 1)) ∨
        (∃ x, 0 < n ∧ stream[n - 1]? = some x ∧ (x < l ∨ x > r ∨ ml = some (ops0.length + n)) ∧
-          (succ = true ↔ ((x < l ∨ x > r) ∧ ml ≠ some (ops0.length + n))))) := by
+          (succ = true ↔ (x < l ∨ x > r)))) := by
   intro stream
   induction stream with
   | nil =>
@@ -92,9 +92,7 @@ theorem feed_spec (l r : Int) (ml : Option Nat) :
           · rw [hlen] at hout
             have e : ops0.length + 1 + n = ops0.length + (n + 1) := by omega
             rwa [e] at hout
-          · rw [hlen] at hsx
-            have e : ops0.length + 1 + n = ops0.length + (n + 1) := by omega
-            rwa [e] at hsx
+          · exact hsx
 
 /-- `feed` never raises on a path with room (the IndexError needs an empty path and `maxlen = 0`) -/
 theorem feed_total (l r : Int) (ml : Option Nat) :
